@@ -127,6 +127,7 @@ class SctpWorld:
         # order of random32() calls: A.tag, A.tsn, B.tag, B.tsn
         S.random32 = Counter32([
             0x11111111, tsn.get("A", 1000), 0x22222222, tsn.get("B", 5000)])
+        self._prestart = list(spec.get("prestart", []))
         S.os = _FakeOs()
         self.wire = []
         self.wire_seq = 0
@@ -142,7 +143,14 @@ class SctpWorld:
         self.dc_events = {"A": [], "B": []}   # 'datachannel' events: channel objects
         self.log = []               # observation trace (no raw sequence numbers)
         self.op_errors = []         # exceptions raised by application operations
-        self.dtls = {"A": FakeDtls(self, "A", "controlling"), "B": FakeDtls(self, "B", "controlled")}
+        # the ICE controlling side is the SCTP client; spec["client"] selects which end that is
+        self.client = spec.get("client", "A")
+        self.server = "B" if self.client == "A" else "A"
+        self.dtls = {self.client: FakeDtls(self, self.client, "controlling"),
+                     self.server: FakeDtls(self, self.server, "controlled")}
+        self.anchors = list(spec.get("anchors", []))
+        if not hasattr(self, "op_hook"):
+            self.op_hook = None      # called as op_hook(world, op, "before"|"after")
         self.sctp = {
             "A": S.RTCSctpTransport(self.dtls["A"]),
             "B": S.RTCSctpTransport(self.dtls["B"]),
@@ -159,6 +167,8 @@ class SctpWorld:
             for label in auto:
                 self._create(label)
             auto = []
+        for op in self._prestart:
+            self._do_op(op)
         self._start()
         if setup == "explored":
             if auto:
@@ -200,7 +210,7 @@ class SctpWorld:
     def _start(self):
         caps = S.RTCSctpCapabilities(maxMessageSize=65536)
         # server first so that it is registered before the INIT arrives
-        for side in "BA":
+        for side in (self.server, self.client):
             self.loop.create_task(self.sctp[side].start(caps, 5000))
         self.loop.drain()
         self.started = True
@@ -280,6 +290,16 @@ class SctpWorld:
     # ------------------------------------------------------------------ ops
     def _do_op(self, op):
         kind = op[0]
+        if self.op_hook:
+            self.op_hook(self, op, "before")
+        try:
+            self._do_op_inner(op)
+        finally:
+            if self.op_hook:
+                self.op_hook(self, op, "after")
+
+    def _do_op_inner(self, op):
+        kind = op[0]
         try:
             if kind == "send":
                 _, side, label, payload = op
@@ -333,7 +353,12 @@ class SctpWorld:
         script_ready = self.script_pos < len(self.script)
         timer_ok = self._timer_ok()
         ev = []
-        if wire:
+        due = script_ready and self._step_due()
+        if due:
+            ev.append(("op", 0, ("op",)))
+            if wire:
+                ev.append(("deliver-first", 1, ("deliver", wire[0].seq)))
+        elif wire:
             ev.append(("deliver", 0, ("deliver", wire[0].seq)))
         elif script_ready:
             ev.append(("op", 0, ("op",)))
@@ -360,9 +385,14 @@ class SctpWorld:
                 ev.append(("deliver-3rd:" + d, 1, ("deliver", q[2].seq)))
         if wire and timer_ok:
             ev.append(("timer-first", 1, ("timer",)))
-        if wire and script_ready:
+        if wire and script_ready and not due:
             ev.append(("op-first", 1, ("op",)))
         return ev
+
+    def _step_due(self):
+        """An anchored step runs as soon as the execution has reached its anchor point, in-flight datagrams or not."""
+        i = self.script_pos
+        return i < len(self.anchors) and self.anchors[i] is not None and self.point >= self.anchors[i]
 
     def describe(self, ev):
         name, cost, key = ev
